@@ -523,6 +523,21 @@ package rewriter
 //@        && (let c := as(as(rs.Body.List[0], ExprStmt).X, CallExpr) in len(c.Args) == 1 && c.Args[0] == rs.Key
 //@             && (RefersTo(c.Fun, cstAPIYield) || (isa(c.Fun, IndexExpr) && RefersTo(as(c.Fun, IndexExpr).X, cstAPIYield))))
 
+// the callback of the YieldFrom pass: a `YieldFrom(it)` statement is replaced by `for v := range it { Yield(v) }`, nothing else is touched
+//@ func (r *yieldFromRewriter) rewrite(c, pkg) (ok)
+//@   requires c != nil && r.rewriter != nil && !(r.rewriter.coImportedName == "_")
+//@   requires isa(cursorNode(c), ExprStmt) ==> !isnil(cursorNode(c)) && !isnil(as(cursorNode(c), ExprStmt).X)
+//@   -- the call type-checks against co.YieldFrom's signature (one argument), go/parser builds no typed-nil nodes
+//@   requires IsCallStmtOf(cursorNode(c), r.rewriter.yieldFromFunc)
+//@        ==> len(as(unparenE(as(cursorNode(c), ExprStmt).X), CallExpr).Args) == 1 && WfExpr(as(unparenE(as(cursorNode(c), ExprStmt).X), CallExpr).Fun)
+//@   ensures[descend] ok
+//@   ensures[only-yieldfrom] !IsCallStmtOf(cursorNode(c), r.rewriter.yieldFromFunc) ==> W == old(W)
+//@   ensures[desugared] IsCallStmtOf(cursorNode(c), r.rewriter.yieldFromFunc) ==> replBase(W) == old(W) && isa(lastReplaced(W), RangeStmt) && !isnil(lastReplaced(W))
+//@        && (let rs := as(lastReplaced(W), RangeStmt) in rs.Tok == token.DEFINE && isnil(rs.Value) && isa(rs.Key, Ident)
+//@             && rs.X == as(unparenE(as(cursorNode(c), ExprStmt).X), CallExpr).Args[0]       -- the delegate expression itself, once
+//@             && rs.Body != nil && len(rs.Body.List) == 1 && isa(rs.Body.List[0], ExprStmt))
+//@   modifies W
+
 // ---------------------------------------------------------------- yield_rewrite.go, pass 2: CPS statement rewriting (C01, C11, C12)
 // Typestate of the block accumulator, "every callback body ends in a return" (EndsOK), panic-freedom.
 // AST nodes are abstract here except for the fields pass 2 itself reads; `modifies AST` havocs them.
